@@ -6,12 +6,12 @@ From CS Require Import Sx TreeModel TreeCanon Monitor.
 Import ListNotations.
 
 Lemma failed_action_is_stutter cfg m s ts :
-  forallb (is_prefix (root_of cfg s)) ts = true -> quiet m = false ->
+  forallb (is_prefix (root_of cfg s)) ts = true -> existsb (has_declined cfg) ts = false -> quiet m = false ->
   (cov_every_step cfg = true -> all_live (cov m) (tL m) (tR m) = true) ->
   mstep cfg m {| o_ev := EEng s ts; o_L := tL m; o_R := tR m |} =
   inl {| tL := tL m; tR := tR m; spec := spec m; cov := cov m; steps := steps m; quiet := quiet m |}.
 Proof.
-  intros Hp Hq Hc. unfold mstep. cbn [o_ev o_L o_R]. rewrite Hp. cbn [negb].
+  intros Hp Hd Hq Hc. unfold mstep. cbn [o_ev o_L o_R]. rewrite Hp. cbn [negb]. rewrite Hd.
   assert (Ec : cov_every_step cfg && negb (all_live (cov m) (tL m) (tR m)) = false).
   { destruct (cov_every_step cfg); [rewrite (Hc eq_refl)|]; reflexivity. }
   unfold tree_of. destruct s; destruct (origin cfg) as [[|]|];
